@@ -556,16 +556,37 @@ type FinalDecl struct {
 	Why     string
 }
 
+type TypeInv struct {
+	Type string // pkg.Name
+	Pkg  string
+	Expr SExpr
+	Text string
+}
+
+type ParamInv struct {
+	Name string
+	Pkg  string
+	Expr SExpr
+	Text string
+}
+
 type Specs struct {
-	Finals     []FinalDecl
-	Contracts  map[string]*Contract
-	Order      []string
-	SpecFuns   map[string]*SpecFun
-	Axioms     []*Axiom
-	Lemmas     []*Axiom
-	GlobalInvs []*GlobalInv
-	GuardedBy  map[string]string // global var -> lock global
-	Errors     []string
+	ParamInvs []*ParamInv
+	TypeInvs        []*TypeInv
+	ValueResultPkgs []string          // packages whose functions with the single result object.PanObject return a value (isVal)
+	FrameEC         []string          // designators of the memory an evaluating function may write on pre-existing objects
+	DefaultFrame    map[string]string // package -> "EC": functions of the package without an assigns clause are held to (and assumed to have) that frame
+	FramePureFuncs  []string          // function types whose values write no pre-existing memory at all
+	FrameECFuncs    []string          // function types whose values all satisfy the EC frame (proved for every such function)
+	Finals          []FinalDecl
+	Contracts       map[string]*Contract
+	Order           []string
+	SpecFuns        map[string]*SpecFun
+	Axioms          []*Axiom
+	Lemmas          []*Axiom
+	GlobalInvs      []*GlobalInv
+	GuardedBy       map[string]string // global var -> lock global
+	Errors          []string
 }
 
 func ParseSpecs(w *World) *Specs {
@@ -613,6 +634,9 @@ func (sp *Specs) parseFile(pkg string, lines []string) {
 		word, rest := t, ""
 		if i := strings.IndexAny(t, " \t"); i >= 0 {
 			word, rest = t[:i], strings.TrimSpace(t[i+1:])
+		}
+		if strings.HasSuffix(word, ":") && (word == "valueresults:") {
+			word = strings.TrimSuffix(word, ":")
 		}
 		switch word {
 		case "props":
@@ -700,7 +724,17 @@ func (sp *Specs) parseFile(pkg string, lines []string) {
 				cur.Loops[n] = ls
 			}
 			switch kind {
-			case "invariant":
+			case "paraminv":
+			// paraminv NAME: expr   (assumed of every parameter / captured variable with that name)
+			i := strings.Index(rest, ":")
+			if i < 0 {
+				sp.errf("%s: bad paraminv %q", pkg, rest)
+				continue
+			}
+			c := clause(strings.TrimSpace(rest[i+1:]))
+			sp.ParamInvs = append(sp.ParamInvs, &ParamInv{Name: strings.TrimSpace(rest[:i]), Pkg: pkg, Expr: c.Expr, Text: c.Text})
+			cur = nil
+		case "invariant":
 				ls.Invariants = append(ls.Invariants, clause(body))
 			case "decreases":
 				// recorded only
@@ -776,6 +810,64 @@ func (sp *Specs) parseFile(pkg string, lines []string) {
 		case "global_inv":
 			c := clause(rest)
 			sp.GlobalInvs = append(sp.GlobalInvs, &GlobalInv{Pkg: pkg, Expr: c.Expr, Text: c.Text})
+			cur = nil
+		case "frame":
+			// frame EC: field object.PanErr.StackTrace, map uint64 object.PanObject, cell int64, elems T
+			// frame ECfuncs: object.BuiltInFunc, ...
+			i := strings.Index(rest, ":")
+			if i < 0 {
+				sp.errf("%s: bad frame %q", pkg, rest)
+				continue
+			}
+			items := splitTop(rest[i+1:])
+			switch strings.TrimSpace(rest[:i]) {
+			case "EC":
+				sp.FrameEC = append(sp.FrameEC, items...)
+			case "ECfuncs":
+				sp.FrameECFuncs = append(sp.FrameECFuncs, items...)
+			case "default":
+				// frame default: evaluator EC
+				for _, it := range items {
+					f := strings.Fields(it)
+					if len(f) == 2 {
+						if sp.DefaultFrame == nil {
+							sp.DefaultFrame = map[string]string{}
+						}
+						sp.DefaultFrame[f[0]] = f[1]
+					}
+				}
+			case "PUREfuncs":
+				sp.FramePureFuncs = append(sp.FramePureFuncs, items...)
+			default:
+				sp.errf("%s: unknown frame %q", pkg, rest[:i])
+			}
+			cur = nil
+		case "paraminv":
+			// paraminv NAME: expr   (assumed of every parameter / captured variable with that name)
+			i := strings.Index(rest, ":")
+			if i < 0 {
+				sp.errf("%s: bad paraminv %q", pkg, rest)
+				continue
+			}
+			c := clause(strings.TrimSpace(rest[i+1:]))
+			sp.ParamInvs = append(sp.ParamInvs, &ParamInv{Name: strings.TrimSpace(rest[:i]), Pkg: pkg, Expr: c.Expr, Text: c.Text})
+			cur = nil
+		case "invariant":
+			// invariant object.PanObj: self.Pairs != nil && ...
+			i := strings.Index(rest, ":")
+			if i < 0 {
+				sp.errf("%s: bad invariant %q", pkg, rest)
+				continue
+			}
+			c := clause(strings.TrimSpace(rest[i+1:]))
+			sp.TypeInvs = append(sp.TypeInvs, &TypeInv{Type: strings.TrimSpace(rest[:i]), Pkg: pkg, Expr: c.Expr, Text: c.Text})
+			cur = nil
+		case "valueresults":
+			// valueresults: evaluator, props
+			rest = strings.TrimPrefix(rest, ":")
+			for _, x := range splitTop(rest) {
+				sp.ValueResultPkgs = append(sp.ValueResultPkgs, strings.TrimSpace(x))
+			}
 			cur = nil
 		case "final":
 			// final object.PanObj.zero writers: f1, f2 because: text
